@@ -162,6 +162,7 @@ type Project struct {
 	Cfg         Config            `json:"cfg"`
 	Soil        Soil              `json:"soil"`
 	PlotNr      string            `json:"plot"`
+	RotCSVOrder []int             `json:"rotCsvOrder,omitempty"` // column order of the CSV rotation file (default: documented order)
 	NoWarm      bool              `json:"noWarm,omitempty"` // never preceded by another run of the same session (pair runs)
 	PolyID      string            `json:"polyId"`
 	FieldID     string            `json:"field"`
@@ -588,9 +589,22 @@ func (p *Project) RotationTxt() string {
 
 func (p *Project) RotationCSV() string {
 	var sb strings.Builder
-	sb.WriteString("Field_ID,crop,sowing,harvest,Rex,yld,autorg,variety\n")
+	names := []string{"Field_ID", "crop", "sowing", "harvest", "Rex", "yld", "autorg", "variety"}
+	// the reader finds the columns by their header names: any column order is the same content
+	order := p.RotCSVOrder
+	if len(order) != len(names) {
+		order = []int{0, 1, 2, 3, 4, 5, 6, 7}
+	}
+	row := func(vals []string) {
+		out := make([]string, len(order))
+		for i, k := range order {
+			out[i] = vals[k]
+		}
+		sb.WriteString(strings.Join(out, ",") + "\n")
+	}
+	row(names)
 	for _, r := range p.Rotation {
-		sb.WriteString(strings.Join([]string{p.FieldID, r.Crop, p.date(r.Sow), p.date(r.Harv), fmt.Sprintf("%03d", r.RexPct), fmt.Sprintf("%03d", r.Yld), fmt.Sprint(r.AutOrg), r.Variety}, ",") + "\n")
+		row([]string{p.FieldID, r.Crop, p.date(r.Sow), p.date(r.Harv), fmt.Sprintf("%03d", r.RexPct), fmt.Sprintf("%03d", r.Yld), fmt.Sprint(r.AutOrg), r.Variety})
 	}
 	return sb.String()
 }
